@@ -102,7 +102,26 @@ def one_config(cfg: dict[str, Any], base: str) -> dict[str, Any]:
             "warm_messages": warm["messages"], "warm_status": warm["status"]}
 
 
+def corpus_main() -> None:
+    """c10_runner --corpus in.json out.json: outputs of corpus cases under the hash seed of this interpreter."""
+    from harness import corpus as C
+
+    cases = json.load(open(sys.argv[2]))
+    W.preload()
+    res = []
+    for case in cases:
+        base = tempfile.mkdtemp(prefix="c10c-", dir=os.environ.get("VERIF_SCRATCH") or None)
+        try:
+            res.append(C.outputs_case(case, base))
+        except BaseException as e:
+            res.append({"name": case["name"], "file": case.get("file", ""), "skipped": "harness error %r" % (e,)})
+        shutil.rmtree(base, ignore_errors=True)
+    json.dump(res, open(sys.argv[3], "w"))
+
+
 def main() -> None:
+    if sys.argv[1] == "--corpus":
+        return corpus_main()
     cfgs = json.load(open(sys.argv[1]))
     W.preload()
     results = []
